@@ -1403,7 +1403,13 @@ def builtin(I, name, args, kwargs, node, env):
             if _scalar_dtype(x) == "int":
                 return x
             pos = I_.manifest_sign(x) <= {"+", "0"}
-            return alg.fn("int", x, integer=True, pos=False) if not pos else _nonneg_int(x)
+            r = alg.fn("int", x, integer=True, pos=False) if not pos else _nonneg_int(x)
+            if getattr(node, "args", None) and env is not None:
+                try:
+                    I.event("rounding", node, (r, I.fterm(node.args[0], env)))  # which floating point expression is rounded here
+                except Exception:
+                    pass
+            return r
         return Unknown("int of %r" % (x,))
     if name in ("float", "complex"):
         return args[0] if isinstance(args[0], (Expr, Unknown)) else Unknown("float()")
